@@ -176,6 +176,11 @@ func (x *Enc) encodeTop() {
 			x.sc.assertC(t, "requires "+c.Text)
 			pre = append(pre, t)
 		}
+		for _, c := range x.con.Givens {
+			ci := x.eng.clauses[c]
+			env := x.newSpecEnv(ci, fr.paramVals(ci.params, nil), h0, h0)
+			x.sc.assertC(x.evalBool(env, clauseExpr(ci)), "given (ghost hypothesis) "+c.Text)
+		}
 	}
 	fr.entry = h0
 	fr.encode("true", h0)
